@@ -49,6 +49,8 @@ pub fn blocks(thorough: bool) -> Vec<Block> {
         b.push(Block::new(u_long_rep(30), thr(&[0, X], &[(1, 1), (1, 2), (2, 1)]), "r x {{}, x} x {(1,1),(1,2),(2,1)}"));
         b.push(Block::new(u_count_gaps(), thr(&[0], &[(1, 1), (2, 1), (3, 1)]), "r x {(1,1),(2,1),(3,1)}"));
         b.push(Block::new(u_long_runs(40), thr(&[0, D, X], &[(1, 1), (1, 2), (3, 1)]), "r x {{}, d, x} x {(1,1),(1,2),(3,1)}"));
+        b.push(Block::new(u_many(30), thr(&[0, D], &[(1, 1)]), "r x {{}, d}"));
+        b.push(Block::new(u_kind_triples(), thr(&[0, X], &[(1, 1)]), "r x {{}, x}"));
         b.push(Block::new(u_corpus("U_longstr", verif_seed() + 7, 4_000, &["a", "b", "c"], (1, 1), (40, 90)), thr(&[0], &[(1, 1)]), "r (corpus of long single strings: dozens of repetition ranges each)"));
     } else {
         b.push(Block::new(Universe::new("U_ab3{a,b}", &["a", "b"], 3, 0, true), thr(&[0], &grid44), "r x thresholds 1..=4 x 1..=4 + (50,1),(1,50)"));
@@ -73,6 +75,8 @@ pub fn blocks(thorough: bool) -> Vec<Block> {
         b.push(Block::new(u_kind_pairs(4, 1, false), thr(&[0, X, E], &grid22), "r x {{}, x, e} x 6 thresholds"));
         b.push(Block::new(u_long_rep(46), thr(&[0, X, I, W], &grid22), "r x {{}, x, i, w} x 6 thresholds"));
         b.push(Block::new(u_long_runs(300), thr(&[0, D, X, W], &grid22), "r x {{}, d, x, w} x 6 thresholds"));
+        b.push(Block::new(u_many(120), thr(&[0, D, X], &[(1, 1), (2, 1)]), "r x {{}, d, x} x {(1,1),(2,1)}"));
+        b.push(Block::new(u_kind_triples(), thr(&[0, X, E, I], &[(1, 1), (1, 2)]), "r x {{}, x, e, i} x {(1,1),(1,2)}"));
         b.push(Block::new(u_corpus("U_longstr", verif_seed() + 7, 150_000, &["a", "b", "c"], (1, 1), (40, 90)), thr(&[0], &[(1, 1), (1, 2)]), "r x {(1,1),(1,2)} (corpus of long single strings)"));
         b.push(Block::new(u_corpus("U_longstr2", verif_seed() + 8, 50_000, &["a", "b"], (1, 2), (50, 120)), thr(&[0], &[(1, 1)]), "r (corpus)"));
         b.push(Block::new(u_kind_pairs(2, 3, false), thr(&[0, X], &[(1, 1)]), "r x {{}, x}"));
